@@ -139,6 +139,7 @@ func vh_AE() {
 		ppo := vConcretize(req.PrevLogIndex-pre.firstIndex, pre.logLen)
 		vAssert(vImplies(pre.terms[ppo] == req.PrevLogTerm, resp.Success), "C15.matching-request-is-accepted")
 	}
+	vCheckInv(n, false, true, false) // entry terms of an arbitrary request are not ordered (MsgInv is the sender's obligation)
 	// ---- C06: the log only changes toward the sender's log
 	if !resp.Success {
 		vCover("rejected")
